@@ -338,7 +338,7 @@ HARNESSES = [
       bounds="concrete replay harness for engine B models; symbolic run is a no-op enumeration guard"),
     H("export", make_export, _exp_inst,
       models=["syminterp", "symdict", "symnp:partitura.score,partitura.io.exportmidi", "symdict_exportmidi", "realdict_generic"],
-      budget={"quick": 250, "thorough": 1200},
+      budget={"quick": 450, "thorough": 1500},
       functions=["exportmidi.save_score_midi", "exportmidi.get_ppq", "exportmidi.map_to_track_channel",
                  "Part.quarter_map", "Part.notes_tied", "GenericNote.duration_tied", "Part.time_signature_map"],
       bounds="1-2 parts with listed divisions, two measures (optional one-quarter-short pickup), two notes per part "
